@@ -26,6 +26,10 @@ type LStep struct {
 	Axis int    `json:"axis,omitempty"` // pick: position of the extra source axis
 	Idx  int    `json:"idx,omitempty"`  // pick: index chosen on it
 	Size int    `json:"size,omitempty"` // pick: its length
+	// pick through a stepped range [Idx : Idx+W : PStep] with PStep >= W > 1: still exactly one
+	// index, but the range the library sees is W wide (W == 0: the plain single index)
+	W     int `json:"w,omitempty"`
+	PStep int `json:"pstep,omitempty"`
 }
 
 // Layout is a recipe that realises a logical array as a *tensor.Dense.
@@ -49,6 +53,9 @@ func (l Layout) String() string {
 			s += fmt.Sprintf(".slice(lo%v hi%v step%v)", st.Lo, st.Hi, st.Step)
 		case "pick":
 			s += fmt.Sprintf(".pick(axis%d idx%d of%d)", st.Axis, st.Idx, st.Size)
+			if st.W > 1 {
+				s += fmt.Sprintf("[as %d:%d:%d]", st.Idx, st.Idx+st.W, st.PStep)
+			}
 		}
 	}
 	if l.Final != "" {
@@ -66,6 +73,9 @@ func (l Layout) Kind() string {
 			k += "+T"
 		case "pick":
 			k += "+pick"
+			if st.W > 1 {
+				k += "wide"
+			}
 		case "slice":
 			stepped := false
 			for _, s := range st.Step {
@@ -213,6 +223,9 @@ func (st LStep) applyLib(t *tensor.Dense) (*tensor.Dense, error) {
 	case "pick":
 		sl := make([]tensor.Slice, st.Axis+1)
 		sl[st.Axis] = RS{st.Idx, st.Idx + 1, 0}
+		if st.W > 1 {
+			sl[st.Axis] = RS{st.Idx, st.Idx + st.W, st.PStep}
+		}
 		v, err := t.Slice(sl...)
 		if err != nil {
 			return nil, err
@@ -443,7 +456,11 @@ func (b *Built) HasGaps() bool {
 			hi = p
 		}
 	}
-	return hi-lo+1 > len(b.Idx)
+	if hi-lo+1 > len(b.Idx) {
+		return true
+	}
+	// a window that reaches past the last selected element (a range wider than what its step selects)
+	return b.T != nil && !b.T.IsScalar() && b.T.DataSize() > len(b.Idx)
 }
 
 // safeAt calls At and converts a panic into an error string.
@@ -635,7 +652,7 @@ func genSliceStep(t *rapid.T, rank int, stepped bool, label string) LStep {
 
 // Layout kinds understood by genLayoutKind.
 var rmLayoutKinds = []string{"contig", "lazyT", "sliced", "stepsliced", "slicedT", "Tsliced", "picked", "materialized"}
-var c06LayoutKinds = []string{"contig", "lazyT", "sliced", "stepsliced", "materialized", "physT"}
+var c06LayoutKinds = []string{"contig", "lazyT", "sliced", "stepsliced", "materialized", "physT", "picked"}
 var cmLayoutKinds = []string{"cmraw", "cmconv", "cmraw+sliced", "cmraw+lazyT", "cmconv+sliced"}
 
 // genLayoutKind draws a recipe of the named kind for an array of the given rank.
@@ -683,7 +700,18 @@ func genLayoutKind(t *rapid.T, kind string, rank int, label string) Layout {
 	case "picked":
 		ax := rapid.IntRange(0, rank).Draw(t, label+"axis")
 		sz := rapid.IntRange(2, 3).Draw(t, label+"size")
-		l.Steps = []LStep{{Op: "pick", Axis: ax, Size: sz, Idx: rapid.IntRange(0, sz-1).Draw(t, label+"idx")}}
+		st := LStep{Op: "pick", Axis: ax, Size: sz, Idx: rapid.IntRange(0, sz-1).Draw(t, label+"idx")}
+		if rapid.IntRange(0, 2).Draw(t, label+"wide") == 0 {
+			// one index selected by a range wider than one entry whose step jumps past its end
+			st.W = rapid.IntRange(2, 3).Draw(t, label+"w")
+			st.PStep = st.W
+			if ax > 0 { // on the leading axis a step that does not divide the extent is known finding F2
+				st.PStep += rapid.IntRange(0, 1).Draw(t, label+"ps")
+			}
+			st.Idx = rapid.IntRange(0, 1).Draw(t, label+"idx2")
+			st.Size = st.Idx + st.W + rapid.IntRange(0, 1).Draw(t, label+"tail")
+		}
+		l.Steps = []LStep{st}
 	case "materialized":
 		l.Steps = []LStep{genSliceStep(t, rank, rapid.Bool().Draw(t, label+"st"), label)}
 		l.Final = "mat"
